@@ -800,6 +800,10 @@ def patch_edits(path):
                 t=line[1:] if line.startswith(' ') else line
                 cur['old'].append(t); cur['new'].append(t)
     for h in hunks:
+        if not os.path.exists(os.path.join('/repo',h['rel'])):
+            assert not h['old'], (path,h['rel'])
+            edits.append((h['rel'],'',''.join(h['new'])))   # a file the patch adds
+            continue
         src=open(os.path.join('/repo',h['rel'])).read()
         lines=src.splitlines(keepends=True)
         st=h['start']-1
@@ -882,6 +886,11 @@ for b in ['B1','B2','B3','B4','B5','B6']:
     for i in range(1,7):
         wbenign(b,'p%d.diff'%i)
 #@@SEEDS@@
+wseed('C01c','C01.R3'); wseed('C02c','C02.R1'); wseed('C03c','C03.R1'); wseed('C04c','C04.R3'); wseed('C05c','C05.R2')
+wseed('C06c','C06.R1'); wseed('C07c','C07.R4'); wseed('C08c','C08.R1'); wseed('C09c','C09.R3'); wseed('C10c','C10.R6')
+for b in ['B7','B8','B9','B10','B11','B12']:
+    for i in range(1,7):
+        wbenign(b,'p%d.diff'%i)
 #@@MORE@@
 for p,l in W.items():
     json.dump(l, open(os.path.join(HERE,p+'.json'),'w'), indent=1)
